@@ -256,7 +256,7 @@ def knob_value(rng, n, extra=()):
 
 
 # --------------------------------------------------------------------- FASTA
-def gen_incidence(rng, n_prot=None, n_pep=None):
+def gen_incidence(rng, n_prot=None, n_pep=None, palindromes=0.0):
     """A protein x peptide incidence structure with the interesting shapes:
     chains of subsets, a protein inside two others, equal sets, empty proteins.
     Returns {"proteins": {name: [token,...]}} with tokens of the form X{6,8}K."""
@@ -265,8 +265,14 @@ def gen_incidence(rng, n_prot=None, n_pep=None):
     toks = []
     seen = set()
     while len(toks) < n_pep:
-        w = _rand_word(rng, rng.randint(6, 8)) + "K"
-        if w in seen or w == w[::-1]:
+        if rng.random() < palindromes:
+            half = _rand_word(rng, rng.randint(3, 4))
+            w = half + half[::-1] + "K"  # interior is a palindrome: the decoy token equals the target token
+        else:
+            w = _rand_word(rng, rng.randint(6, 8)) + "K"
+            if w[:-1] == w[:-1][::-1]:
+                continue
+        if w in seen:
             continue
         seen.add(w)
         toks.append(w)
